@@ -38,6 +38,7 @@ def configs(tier):
     refs = [((1, 1), None), ((2, 1), None), ((1, 1, 1), [0, 2])] + ([((1, 1, 1), None)] if tier == "thorough" else [])
     if tier == "thorough":
         refs += [((2, 2), None), ((2, 1, 1), None), ((2, 1, 1), [0, 1]), ((2, 2, 1), [1, 2])]
+    out.append(dict(key="sampler,re-initialised,ref=(1, 1, 1),gt=[0, 2],float_pivot", kind="sampler", sizes=[1, 1, 1], gt=[0, 2], pivot="float_pivot", reinit=True, cost=500))
     for sizes, gt in refs:
         for piv in ("float_pivot", "int_pivot"):
             out.append(dict(key=f"sampler,ref={sizes},gt={gt},{piv}", kind="sampler", sizes=list(sizes), gt=gt, pivot=piv,
@@ -121,6 +122,8 @@ def harness(cfg, ns):
         gt = None if gt_idx is None else [ANN[i] for i in gt_idx]
         gt_names = [ANN[i] for i in (range(n) if gt_idx is None else gt_idx)]
         s = sa.ShuffleContinuumSampler(pivot_type=cfg["pivot"])
+        if cfg.get("reinit"):
+            s.init_sampling(c, None)          # an earlier initialisation on the same continuum object, all annotators
         s.init_sampling(c, gt)
         binf, bsup = c.bound_inf, c.bound_sup
 
@@ -131,7 +134,7 @@ def harness(cfg, ns):
                     draws.append(["uniform", common.frs(mval(m, rec[3]))])
                 elif rec[0] == "choice":
                     draws.append(["choice", rec[3]])
-            return dict(kind="sampler", sizes=list(sizes), gt=gt, pivot=cfg["pivot"], draws=draws,
+            return dict(kind="sampler", reinit=bool(cfg.get("reinit")), sizes=list(sizes), gt=gt, pivot=cfg["pivot"], draws=draws,
                         units=[[ANN[a], common.frs(mval(m, v["start"])), common.frs(mval(m, v["end"])), v["label"]] for (a, j), v in sorted(info.items())],
                         slack=[common.frs(mval(m, lo)), common.frs(mval(m, hi))])
         ctx.notes["realize"] = rz
@@ -274,6 +277,8 @@ def replay(case):
             raise RuntimeError("replay expected a choice draw")
         return list(seq)[draws.pop(0)[1]]
     s = ShuffleContinuumSampler(pivot_type=case["pivot"])
+    if case.get("reinit"):
+        s.init_sampling(c, None)
     s.init_sampling(c, case["gt"])
     used = []
     orig = ShuffleContinuumSampler._random_from_segments
